@@ -24,16 +24,23 @@ func c09HeavyRun(ctx *core.RunCtx) {
 	case 0:
 		in := cc.cts[0].CopyNew()
 		h := hashCt(in)
-		ctx.Count("op.ckks.bootstrapping.Bootstrap", 1)
-		st := c09Exec(func() error { _, err := ev.Bootstrap(in); return err })
-		ctx.Event("Bootstrap -> %s", st)
+		name := "bootstrapping.Bootstrap"
+		call := func() error { _, err := ev.Bootstrap(in); return err }
+		if variant == 0 && ch.Bool("direct-evaluate") {
+			// the entry point of the generic bootstrapper interface (same ring: no packing in front of it)
+			name = "bootstrapping.Evaluate"
+			call = func() error { _, err := ev.Evaluate(in); return err }
+		}
+		ctx.Count("op.ckks."+name, 1)
+		st := c09Exec(call)
+		ctx.Event("%s -> %s", name, st)
 		if st.kind == 2 {
-			ctx.Fail("status", "ckks|bootstrapping.Bootstrap|panic", "Bootstrap panicked: %s", st.msg)
+			ctx.Fail("status", "ckks|"+name+"|panic", "%s panicked: %s", name, st.msg)
 			return
 		}
 		ctx.Count("oracle.twin-step", 1)
 		if hashCt(in) != h {
-			ctx.Fail("inputs", "ckks|bootstrapping.Bootstrap|op0-modified", "Bootstrap returned a new ciphertext and changed the one it was given (level %d -> %d, scale %v -> %v)", cc.cts[0].Level(), in.Level(), &cc.cts[0].Scale.Value, &in.Scale.Value)
+			ctx.Fail("inputs", "ckks|"+name+"|op0-modified", "%s returned a new ciphertext and changed the one it was given (level %d -> %d, scale %v -> %v)", name, cc.cts[0].Level(), in.Level(), &cc.cts[0].Scale.Value, &in.Scale.Value)
 			return
 		}
 	case 1:
